@@ -34,7 +34,7 @@ class TlcResult:
         return self.violated is None and not self.errors
 
 
-_PRINT_RE = re.compile(r'^<<"([A-Z_]+)", "(.*)">>$')
+_PRINT_RE = re.compile(r'^"([A-Z_]+) (.*)"$')
 _GEN_RE = re.compile(r"^(\d+) states generated, (\d+) distinct states found")
 _DEPTH_RE = re.compile(r"^The depth of the complete state graph search is (\d+)")
 _INV_RE = re.compile(r"^Error: Invariant (\S+) is violated")
